@@ -44,7 +44,15 @@ Stmts == <<
              body |-> <<[t |-> "if", branches |-> <<[c |-> [t |-> "prop", e |-> Var(B_forloop), name |-> B_first],
                                                      body |-> <<[t |-> "assign", name |-> <<102>>, e |-> Var(B_forloop)]>>]>>]>>],
             Ob([t |-> "prop", e |-> Var(<<102>>), name |-> B_index]), Ob([t |-> "prop", e |-> Var(<<102>>), name |-> B_last]),
-            Ob([t |-> "prop", e |-> Var(<<102>>), name |-> B_rindex]), T(<<59>>)>>
+            Ob([t |-> "prop", e |-> Var(<<102>>), name |-> B_rindex]), T(<<59>>)>>,
+  (* 12: what is assigned or captured inside a capture body stays assigned after it *)
+          <<[t |-> "capture", name |-> X, body |-> <<[t |-> "assign", name |-> Y, e |-> Lit(IntV(7))], T(<<99>>), Ob(Var(Y)),
+                                                     [t |-> "capture", name |-> <<122>>, body |-> <<T(<<105>>)>>]>>], Ob(Var(<<122>>))>>,
+  (* 13: ... also from inside a conditional or a loop inside the capture body *)
+          <<[t |-> "capture", name |-> <<122>>, body |->
+               <<[t |-> "for", tag |-> "for", var |-> <<105>>, coll |-> R12, body |->
+                    <<[t |-> "if", branches |-> <<[c |-> [t |-> "prop", e |-> Var(B_forloop), name |-> B_last],
+                                                   body |-> <<[t |-> "assign", name |-> Y, e |-> Var(<<105>>)]>>]>>]>>]>>]>>
 >>
 NS == Len(Stmts)
 
@@ -74,6 +82,8 @@ Decl(ix, s) ==
                    [] i = 9 -> [s EXCEPT !.y = Str(<<49, 50>>)]
                    [] i = 10 -> [s EXCEPT !.fl = Str(<<102>>)]
                    [] i = 11 -> [s EXCEPT !.out = @ \o <<49>> \o <<102, 97, 108, 115, 101>> \o <<50, 59>>]       \* 1 false 2 ;
+                   [] i = 12 -> [s EXCEPT !.x = Str(<<99, 55>>), !.y = IntV(7), !.out = @ \o <<105>>]
+                   [] i = 13 -> [s EXCEPT !.y = IntV(2)]
        IN  Decl(Tail(ix), s2)
 DeclOut(ix) == Decl(ix \o <<6>>, [x |-> Nil, y |-> Nil, fl |-> Nil, out |-> <<>>]).out
 
